@@ -382,4 +382,72 @@ def run(facts, prop=None):
     has_std = any(c == 'feature="std"' for c in facts.cfg)
     if has_std:
         check_rw(res, facts)
+        check_take_vectored(res, facts)
+    check_constructors(res, facts, has_std)
     return res
+
+
+CONSTRUCTORS = [("buf::take::new", "Take", 2, False), ("buf::limit::new", "Limit", 2, False), ("buf::chain::Chain::<T, U>::new", "Chain", 2, False),
+                ("buf::iter::IntoIter::<T>::new", "IntoIter", 1, False), ("buf::reader::new", "Reader", 1, True), ("buf::writer::new", "Writer", 1, True)]
+
+
+def check_constructors(res, facts, has_std):
+    """the adapters store exactly what they are given: `new(inner, limit)` = Adapter{inner, limit}, no clamping, no pre-reading"""
+    for ident, name, nargs, std_only in CONSTRUCTORS:
+        if std_only and not has_std:
+            continue
+        l = facts.by_id.get(ident, [])
+        key = "%s::new stores its arguments unchanged" % name
+        if len(l) != 1:
+            res.bad(key, "-", "constructor %s not found" % ident)
+            continue
+        b = l[0]
+        e = canon(return_expr(b, facts, inline=False))
+        ok = isinstance(e, tuple) and e[0] == "agg" and isinstance(e[1], tuple) and e[1][1].endswith("::" + name) \
+            and tuple(e[2]) == tuple(("param", i + 1) for i in range(nargs))
+        calls = [c for _, c in b.calls()]
+        if ok and not calls:
+            res.ok(key, b.loc(), "%s{%s}" % (name, ", ".join("arg%d" % (i + 1) for i in range(nargs))))
+        else:
+            res.bad(key, b.loc(), "the constructor does not store its arguments as given: %s" % fmt_expr(e)[:100])
+
+
+def check_take_vectored(res, facts):
+    """Take::chunks_vectored never reports more slices than dst holds: the scratch slice handed to the inner buffer is
+    cut to min(dst.len(), N) (or dst itself is handed on), the function returns 0, the inner count, or a loop index + 1"""
+    b = method_body(facts, BUF, "buf::take::Take", "chunks_vectored")
+    key = "Take::chunks_vectored|count bounded by dst.len()"
+    if b is None:
+        res.bad(key, "-", "Take::chunks_vectored not found")
+        return
+    eb = ExprBuilder(b, facts, inline=True)
+    probs = []
+    inner_calls = []
+    for bi, t in b.calls():
+        fn = callee(t)
+        if fn and fn["name"] == "chunks_vectored" and not b.blocks[bi]["cleanup"]:
+            loc = (bi, len(b.blocks[bi]["stmts"]))
+            inner_calls.append([canon(eb.operand(a, loc)) for a in t["args"]])
+    if len(inner_calls) != 1:
+        probs.append("expected one inner.chunks_vectored call, found %d" % len(inner_calls))
+    else:
+        recv, dst = inner_calls[0]
+        if not self_field("inner")(strip_refs(recv)):
+            probs.append("chunks_vectored is not called on self.inner")
+        d = strip_refs(dst)
+        if d == ("param", 2):
+            pass
+        else:
+            bounded = False
+            for x in walk(d):
+                if isinstance(x, tuple) and x and x[0] == "call" and x[1].rsplit("::", 1)[-1] == "index_mut" and len(x[2]) == 2:
+                    r = x[2][1]
+                    if isinstance(r, tuple) and r[0] == "agg" and isinstance(r[1], tuple) and r[1][1].endswith("RangeTo"):
+                        if is_min_of(r[2][0], len_of(lambda y: y == ("param", 2)), lambda y: True):
+                            bounded = True
+            if not bounded:
+                probs.append("the scratch slice given to the inner buffer is not cut to min(dst.len(), ..): the inner count can exceed dst.len()")
+    if probs:
+        res.bad(key, b.loc(), "; ".join(probs))
+    else:
+        res.ok(key, b.loc(), "inner.chunks_vectored(&mut scratch[..min(dst.len(), N)])", nontrivial=True)
